@@ -20,6 +20,7 @@ MODULES = [
     "cobald.daemon.runners.trio_runner", "cobald.daemon.runners.thread_runner", "cobald.daemon.runners.service",
     "cobald.daemon.runners.guard",
     "_weakrefset",  # the service registry is a WeakSet: widen the windows inside its (pure Python) iteration as well
+    "asyncio.runners",  # asyncio.run's finalisation: the window between the loop's last turn and loop.close()
 ]
 
 
